@@ -165,7 +165,10 @@ EvEnd ==
                ELSE <<>>
          \* the chain stopped, yet the syncer is rewound again and again (observed 30 times): it never converges
          v3 == IF Trace[l].loop THEN <<V("Converged", [why |-> "rewound for ever after the chain stopped", store |-> s, kf |-> "none"])>> ELSE <<>>
-     IN viol' = IF Trace[l].quiet THEN viol \o v0 \o v1 \o v2 ELSE viol \o v3
+         \* the store of the syncer could not even be read back consistently (events of blocks it no longer has)
+         v4 == IF "storeerr" \in DOMAIN Trace[l] /\ Trace[l].storeerr # ""
+               THEN <<V("Converged", [why |-> "the store is inconsistent", err |-> Trace[l].storeerr, kf |-> "none"])>> ELSE <<>>
+     IN viol' = IF v4 # <<>> THEN viol \o v4 ELSE IF Trace[l].quiet THEN viol \o v0 \o v1 \o v2 ELSE viol \o v3
   /\ l' = l + 1 /\ UNCHANGED <<t, tag, B, cv, tip, fin, st, seen, pendAck, forks, kfb>>
 
 Judged == {"cfg", "chain", "process", "track", "reorg", "ack", "restart", "end"}
